@@ -72,6 +72,13 @@ section post
 variable {K : Type} [Zero K] [Add K] [Sub K] [Mul K] [Div K] [Neg K] [LT K] [DecidableLT K]
   [NatCast K]
 
+/-- `SDOFcorr1 = np.fft.ifft(SDOFbell, n=nIFFT, axis=0, norm="ortho").real` at lag `t`,
+    `nIFFT = 5·nf`: the bell (length `nf`) is zero-padded to `nIFFT` points, so only the
+    first `nf` terms of the transform sum are non-zero.  `tw m = exp(+2πi·m/nIFFT)`
+    (`m < nIFFT`) and `rs = 1/√nIFFT` (the `"ortho"` factor) are parameters. -/
+def ifftRe (nf : Nat) (tw : Nat → Cx K) (rs : K) (bell : Nat → Cx K) (t : Nat) : K :=
+  rs * (sumTo nf (fun l => bell l * tw (l * t % (5 * nf)))).re
+
 /-- `normSDOFcorr = SDOFcorr1[: n // 2] / SDOFcorr1[np.argmax(SDOFcorr1)]` (entry `i < n/2`) -/
 def normCorr (n : Nat) (corr : Nat → K) (i : Nat) : K := corr i / corr (argmaxTo n corr)
 
